@@ -192,3 +192,18 @@ Definition arb_facet (p1 p2 p3 centroid : pt) (p : pt) : R :=
   let s := dot n (vsub centroid p1) in
   (* outward = away from the centroid *)
   - (s * dot n (vsub p p1)).
+
+(* ARB as a whole: [vs] the vertices in use, [facets] the vertex numbers
+   (from 0) of every facet; the facet is the plane through its first three
+   vertices, outward = away from the centroid of the vertices *)
+Definition vsum (vs : list pt) : pt := fold_left vadd vs (0, 0, 0).
+Definition centroid_of (vs : list pt) : pt := vmul (1 / INR (List.length vs)) (vsum vs).
+Definition origin : pt := (0, 0, 0).
+Definition arb_facet_of (vs : list pt) (f : list nat) : pt -> R :=
+  match f with
+  | i1 :: i2 :: i3 :: _ =>
+      arb_facet (nth i1 vs origin) (nth i2 vs origin) (nth i3 vs origin) (centroid_of vs)
+  | _ => fun _ => 0
+  end.
+Definition arb_facets (vs : list pt) (facets : list (list nat)) : list (pt -> R) :=
+  map (arb_facet_of vs) facets.
